@@ -57,3 +57,46 @@ package consensus
 //@   requires res0(w) <= t && t < res1(w) && t >= 10000000000
 //@   let g = GetCorrectMiner(parent, t, T, dm)
 //@   ensures res1(g) == nil && res0(g) == me
+
+// Finality threshold (C03): "at least two thirds (rounded up) of the deputies, including the miner"
+//@ func IsConfirmEnough   pure
+//@   props C03
+//@   requires block != nil && block.Header != nil && deputynode.wfManager(dm) && deputynode.cfgOK() && len(block.Confirms) < 1<<30
+//@   let n = len(dm.GetDeputiesByHeight(block.Height(), true))
+//@   requires dm.DeputyCount < 65536
+//@   ensures result == (3 * (len(block.Confirms) + 1) >= 2 * n)
+//@   nopanic
+
+//@ func IsSigExist   pure
+//@   props C03
+//@   ensures result <==> exists(i, 0, len(sigs), sigs[i] == sig)
+//@   invariant @loop 0: 0 <= $k && $k <= len(sigs) && forall(i, 0, $k, sigs[i] != sig)
+//@   nopanic
+
+// signer(block, s): the node whose signature s is, for this block; minerKey(block): the node that signed the header
+//@ spec func signer(b *types.Block, s types.SignData) [0]byte = types.nodeKeyOf(b.Hash(), content(s))
+//@ spec func minerKey(b *types.Block) [0]byte = types.nodeKeyOf(b.Hash(), content(b.Header.SignData))
+//@ pred minerOK(b *types.Block) = types.recoverOK(b.Hash(), content(b.Header.SignData))
+//@ pred sigOK(b *types.Block, s types.SignData) = types.recoverOK(b.Hash(), content(s))
+
+// C03: a confirmation counts only if it is by a deputy of the block's term, and the signers of the returned confirms, of the
+// confirms already stored in the block and of the block itself (the miner) are pairwise DISTINCT NODES.
+//@ func (*Validator).VerifyNewConfirms
+//@   props C03
+//@   requires block != nil && block.Header != nil && deputynode.wfManager(dm) && deputynode.cfgOK()
+//@   let ds = dm.GetDeputiesByHeight(block.Height(), true)
+//@   ensures forall(i, 0, len(result0), exists(k, 0, len(ds), content(ds[k].NodeID) == signer(block, result0[i])))
+//@   ensures forall(i, 0, len(result0), forall(j, 0, len(result0), i != j ==> signer(block, result0[i]) != signer(block, result0[j])))
+//@   ensures forall(i, 0, len(result0), minerOK(block) ==> signer(block, result0[i]) != minerKey(block))
+//@   ensures forall(i, 0, len(result0), forall(j, 0, len(block.Confirms), sigOK(block, block.Confirms[j]) ==> signer(block, result0[i]) != signer(block, block.Confirms[j])))
+//@   ensures unchanged(block.Confirms)
+//@   invariant @loop 0: 0 <= $k && $k <= len(block.Confirms) && signed != nil && (minerOK(block) ==> has(signed, strof(minerKey(block))))
+//@   invariant @loop 0: forall(j, 0, $k, sigOK(block, block.Confirms[j]) ==> has(signed, strof(signer(block, block.Confirms[j]))))
+//@   invariant @loop 1: 0 <= $k && $k <= len(sigList) && fresh(validConfirms) && unchanged(block.Confirms) && unchanged(sigList)
+//@   invariant @loop 1: signed != nil && (minerOK(block) ==> has(signed, strof(minerKey(block))))
+//@   invariant @loop 1: forall(j, 0, len(block.Confirms), sigOK(block, block.Confirms[j]) ==> has(signed, strof(signer(block, block.Confirms[j]))))
+//@   invariant @loop 1: forall(i, 0, len(validConfirms), has(signed, strof(signer(block, validConfirms[i]))))
+//@   invariant @loop 1: forall(i, 0, len(validConfirms), exists(k, 0, len(ds), content(ds[k].NodeID) == signer(block, validConfirms[i])))
+//@   invariant @loop 1: forall(i, 0, len(validConfirms), forall(j, 0, len(validConfirms), i != j ==> signer(block, validConfirms[i]) != signer(block, validConfirms[j])))
+//@   invariant @loop 1: forall(i, 0, len(validConfirms), minerOK(block) ==> signer(block, validConfirms[i]) != minerKey(block))
+//@   invariant @loop 1: forall(i, 0, len(validConfirms), forall(j, 0, len(block.Confirms), sigOK(block, block.Confirms[j]) ==> signer(block, validConfirms[i]) != signer(block, block.Confirms[j])))
